@@ -311,7 +311,30 @@ def reclassify_unknown_callees(res, text, tag):
 
 
 def run_unit(unit_name, template_rel, variant):
-    """returns result dict for one unit-variant"""
+    """returns result dict for one unit-variant; when Verus cannot type the unit because it calls a function or
+    method the unit does not contain, the unit is generated once more with that helper inlined (rule R16)"""
+    res = run_unit_(unit_name, template_rel, variant, ())
+    if res["status"] == "undecided" and res.get("unknown_functions") and "needs contract" in (res.get("undecided") or ""):
+        # a helper the contracts have never seen, extracted along with its impl block: if it is a single-expression
+        # function it is inlined at its call sites (R16), so that its callers are decided on the code that runs
+        names = tuple(sorted(set(q.split("::")[-1] for q in res["unknown_functions"])))
+        res2 = run_unit_(unit_name, template_rel, variant, names)
+        if (res2.get("stats") or {}).get("R16"):
+            res2["inlined_helpers"] = list(names)
+            return res2
+    if res["status"] == "undecided" and res.get("undecided") and "could not process" in res["undecided"]:
+        names = set(re.findall(r"no method named `(\w+)` found", res.get("stderr", "") + res["undecided"]))
+        names |= set(re.findall(r"cannot find function `(\w+)` in this scope", res.get("stderr", "") + res["undecided"]))
+        if names:
+            res2 = run_unit_(unit_name, template_rel, variant, tuple(sorted(names)))
+            if (res2.get("stats") or {}).get("R16"):
+                res2["inlined_helpers"] = sorted(names)
+                return res2
+    return res
+
+
+def run_unit_(unit_name, template_rel, variant, inline):
+    """one generation + verification pass"""
     tag = unit_name + ("" if not variant else "." + "_".join(list(variant.values())[:2]))
     crate = re.sub(r"\W", "_", tag)
     res = dict(unit=tag, status="ok", functions={}, failures=[], undecided=None, canary=None, stats=None,
@@ -320,13 +343,16 @@ def run_unit(unit_name, template_rel, variant):
     os.makedirs(BUILD, exist_ok=True)
     try:
         with GEN_LOCK:   # the generator keeps per-template state; only verus runs in parallel
+            extract.INLINE_HELPERS = tuple(inline)
             text, stats = extract.generate(tpl, variant, canary=False)
             ctext, _ = extract.generate(tpl, variant, canary=True)
             ptext = None
             tpl_text_ = open(tpl).read() + "".join(open(os.path.join(VERIF, "contracts", m_)).read() for m_ in re.findall(r"^@@include\s+(\S+)", open(tpl).read(), re.M) if os.path.exists(os.path.join(VERIF, "contracts", m_)))
             if "@@borrowprobe" in tpl_text_ or "@@freeprobe" in tpl_text_:
                 ptext, _ = extract.generate(tpl, variant, canary=False, probe=True)
+            extract.INLINE_HELPERS = ()
     except ExtractError as e:
+        extract.INLINE_HELPERS = ()
         res["status"] = "undecided"
         res["undecided"] = "extraction: %s" % e
         return res
